@@ -24,7 +24,10 @@ Oracle
   input part (structural, on the final document):
     * expat (fragment wrapped in a root element) and the html.parser tokenizer (comment end decided
       by the WHATWG comment states, see models/markup_views.py) give back exactly the generated
-      structure: element names and nesting, attribute names and values, concatenated text, one
+      structure: element names (any spelling; the HTML view compares them ASCII-case-insensitively) and nesting,
+      attribute names and values, concatenated text (for elements an HTML tokenizer reads as text only - script, style,
+      title, textarea, xmp, ... - the HTML view demands the element's own end tag to end it and nothing but its text in
+      it, the text as it stands or after decoding character references, see models/markup_views.py), one
       comment node per Comment (its data exactly when it contains no `--`, does not end in `-` and does
       not begin with `>` or `->`; otherwise only "one comment, nothing leaks out of it"),
       CDATA content as character data; a markup-valued attribute parses, after the parser's own
@@ -57,14 +60,28 @@ COMPONENTS = {"real": ["twisted.web._flatten.flatten/flattenString/_flattenTree/
                        "twisted.internet.defer.Deferred/Deferred.fromCoroutine"],
               "stub": ["which leaves are fired before flattening starts and the order in which the others fire (tape)",
                        "the write callable (records chunks; may fire a leaf re-entrantly)",
-                       "parsers used as oracle: xml.parsers.expat, html.parser.HTMLParser (+ WHATWG comment-end rules)"]}
+                       "parsers used as oracle: xml.parsers.expat, html.parser.HTMLParser (+ WHATWG comment-end rules, + WHATWG "
+                       "RCDATA/RAWTEXT/script-data rules for where a text-only element ends)"]}
 RULE = ("run = one tree (depth <= 5, <= ~45 nodes) with 0..10 asynchronous leaves (Deferred / shared Deferred / nested Deferred / coroutine "
         "awaiting gates / renderer answering through a Deferred or coroutine), flattened once asynchronously under a tape-chosen firing "
         "order (awaited leaf, another leaf, a leaf fired from inside write()), flush threshold BUFFER_SIZE tape-chosen in {65536,1,7,64}; "
-        "optionally one failing leaf or one unsupported object; non-trivial = the flattener suspended at least once AND the tree "
+        "optionally one failing leaf or one unsupported object; element names from a fixed list of ordinary names and, with the knob "
+        "wide_p in {0.15,0,0.4} per tag, from a wider universe (script/style/title/textarea/xmp/iframe/noembed/noframes in several "
+        "spellings with textual children - or, in a fifth of them, arbitrary children and the XML view only - and HTML structural "
+        "names such as pre, table, select, html, body, DIV, H1), also for tags with a renderer; non-trivial = the flattener suspended at least once AND the tree "
         "contains at least one markup-significant character sequence in text, attribute, comment or CDATA content")
 ASSUMPTIONS = [
-    "tag and attribute names are valid (fixed lists of lower-case names; no raw-text/RCDATA elements such as script, style, textarea, title)",
+    "tag and attribute names are valid: ASCII names from fixed lists (ordinary names; with wide_p also the text-only elements of HTML "
+    "- script, style, title, textarea, xmp, iframe, noembed, noframes - in lower, upper and mixed case, and HTML structural names); attribute "
+    "names are lower case; `plaintext` (an HTML tokenizer never leaves it: no serialisation can end the element) and `noscript` (text-only "
+    "or not depending on the parser's scripting flag) are not drawn",
+    "HTML view of a text-only element: ended by its own end tag (WHATWG RCDATA / RAWTEXT / script data states incl. the escaped and "
+    "double escaped ones) with only character data in it; title/textarea: that data is the generated text; RAWTEXT elements and script: "
+    "the generated text either as it stands or after decoding character references (a tokenizer does not decode them there, so a "
+    "serialiser cannot both keep `<` from being markup and keep the text - the statement's XML reading decides, the HTML reading only "
+    "demands that nothing leaks and nothing else is altered); only tokenization is modelled (the tree builder's dropping of a newline "
+    "right after <textarea>/<pre> is not); trees that put tags, comments, CDATA sections or character references INTO a text-only "
+    "element get the XML view only",
     "bytes leaves are UTF-8 encodings of strings (the statement is silent on bytes that are not UTF-8)",
     "XML view only for trees whose content is representable in XML 1.0: no characters outside the Char production, no `--` inside a "
     "comment; XML end-of-line and attribute-value whitespace normalisation is applied to both sides",
@@ -97,8 +114,14 @@ P_SLOT_SHADOW = 0.06      # an inner fillSlots() re-uses a slot name of an enclo
 P_COMMENT_HAZARD = 0.06   # comment data beginning with `>` / `->` or containing `--!>` (ends the comment for an HTML5 tokenizer)
 
 TAGS = ["div", "span", "p", "a", "b", "em", "ul", "li", "td", "h1", "x-y", "sect_1"]
+# The wider universe of valid element names (knob wide_p): names an HTML tokenizer reads text-only content for (RCDATA: title,
+# textarea; RAWTEXT: style, xmp, iframe, noembed, noframes; script) and names with other roles in HTML, in several spellings.
+TEXT_ELEMENT_NAMES = ["script", "style", "title", "textarea", "SCRIPT", "Style", "xmp", "iframe", "TITLE", "TextArea", "noembed",
+                      "noframes", "sCrIpT", "STYLE"]
+OTHER_NAMES = ["pre", "DIV", "Span", "table", "select", "option", "html", "body", "head", "form", "button", "code", "H1", "label",
+               "template", "object"]
 VOID = ["br", "img", "hr", "input"]
-ATTRS = ["id", "class", "href", "title", "alt", "data-x", "x_y", "value"]
+ATTRS = ["id", "class", "href", "title", "alt", "data-x", "x_y", "value", "style", "onclick", "src", "srcdoc", "content", "action"]
 TOKENS = ["a", "<", ">", "&", '"', "'", "--", "]]>", "<!--", "-->", "<![CDATA[", "</", "/>", "&amp;", "&lt;", "&#60;", "&quot", "=", " ",
           "\n", "\t", "\r", "b", "é", "€", "\U0001F600", "<script>", "</div>", "-", "]", "]]", "?>", "<?", "\\", "`", "&#", "x",
           "--!>", "\x7f", "\x85", " ", "-- >", "]]&gt;"]
@@ -364,19 +387,38 @@ class Gen:
     def children(self, depth, ctx, lo=0, hi=3):
         return [self.content(depth + 1, ctx) for _ in range(self.sim.draw_int(lo, hi, "nchildren"))]
 
+    def wide_name(self, name):
+        """(name, textonly): with the knob wide_p the element name comes from the wider universe; for a name whose content an HTML
+        tokenizer reads as text only, `textonly` says whether the generator keeps the children textual (mostly; otherwise anything
+        goes into the element and only the XML view applies to the tree)."""
+        sim = self.sim
+        if not self.k["wide_p"] or not sim.draw_bool(self.k["wide_p"], "widename"):
+            return name, False
+        self.flags.add("wide-name")
+        name = sim.draw_choice(TEXT_ELEMENT_NAMES if sim.draw_bool(0.65, "textelement") else OTHER_NAMES, "widetagname")
+        if mv.ascii_lower(name) not in mv.HTML_TEXT_ELEMENTS:
+            return name, False
+        return name, not sim.draw_bool(0.2, "anychildren")
+
     def tag(self, depth, ctx, _):
         sim = self.sim
         void = sim.draw_bool(0.15, "void")
         name = sim.draw_choice(VOID if void else TAGS, "tagname")
+        textonly = False
+        if not void:
+            name, textonly = self.wide_name(name)
         nb = (not ctx.static) and sim.draw_bool(0.15, "tagbytes")
         attrs = self.attrs(depth, ctx)
         fills = []
         after = None
-        inner = ctx.but(attr=None)
+        # children of a text-only element are textual (strings, bytes, slots, lists, asynchronous leaves of those)
+        inner = ctx.but(attr="pure" if textonly else None)
         if not ctx.static and sim.draw_bool(self.k["slot_p"], "fills"):
             scope = list(inner.scope)
             for _ in range(sim.draw_int(1, 2, "nfills")):
                 klass = sim.draw_choice(["textual", "markup"], "fillclass")
+                if textonly:
+                    klass = "textual"
                 shadowable = [e for e in inner.scope if e[1] == klass and not e[0].startswith("q") and e[2] not in self.poisoned
                               and e[0] not in [f[0] for f in fills]]
                 if shadowable and sim.draw_bool(self.k["shadow_p"], "shadow"):
@@ -400,7 +442,8 @@ class Gen:
                 fills.append((sname, klass, val))
                 scope = [e for e in scope if e[0] != sname] + [(sname, klass, self.nfill)]
             inner = inner.but(scope=tuple(scope))
-        kids = self.children(depth, inner, 0, 1 if void else 3) if not (void and sim.draw_bool(0.8, "voidempty")) else []
+        kids = (self.children(depth, inner, 1 if textonly else 0, 1 if void else 3)
+                if not (void and sim.draw_bool(0.8, "voidempty")) else [])
         node = ("tag", name, nb, attrs, kids, fills)
         if after is not None and ctx.attr is None:
             return ("list", "list", [node, ("slot", after[0], None, after[0])])
@@ -415,17 +458,23 @@ class Gen:
         ctx.methods[rname] = None      # reserve
         transparent = sim.draw_bool(0.25, "transparent")
         name = "" if transparent else sim.draw_choice(TAGS, "tagname")
+        textonly = False
+        if not transparent:
+            name, textonly = self.wide_name(name)
         attrs = [] if transparent else self.attrs(depth, ctx, static_rt=True)
         action = sim.draw_choice(["append", "replace", "clear", "fill"], "action")
         # the payload is produced by the renderer at render time: never static, may be asynchronous
         # (a renderer inside something that is flattened twice runs twice: the leaves in its payload are then shared)
-        pctx = Ctx(attr=None, scope=(), reflat=ctx.reflat, methods=None, legal=ctx.legal)
+        # (what a renderer puts into a text-only element is textual too, unless it replaces the element)
+        pctx = Ctx(attr="pure" if (textonly and action != "replace") else None, scope=(), reflat=ctx.reflat, methods=None, legal=ctx.legal)
         slotname = None
-        inner = ctx.but(attr=None)
+        inner = ctx.but(attr="pure" if textonly else None)
         if action == "fill":
             self.nslot += 1
             slotname = "q%d" % self.nslot
             klass = sim.draw_choice(["textual", "markup"], "fillclass")
+            if textonly:
+                klass = "textual"
             pctx = pctx.but(attr="pure" if klass == "textual" else None, reflat=True)
             self.nfill += 1
             inner = inner.but(scope=tuple(inner.scope) + ((slotname, klass, self.nfill),))
@@ -478,7 +527,16 @@ class Expect:
 
     def __init__(self, g):
         self.g = g
-        self.scan = {"illegal": False, "comment_dashes": False, "cdata": False, "significant": False, "mixed": False}
+        self.scan = {"illegal": False, "comment_dashes": False, "cdata": False, "significant": False, "mixed": False,
+                     "text_element": False, "text_element_markup": False}
+
+    def elem(self, name, attrs, kids):
+        if mv.ascii_lower(name) in mv.HTML_TEXT_ELEMENTS:
+            if any(it[0] != "T" for it in kids):
+                self.scan["text_element_markup"] = True      # the HTML view cannot say where such an element ends
+            elif any(SIGNIFICANT.search(it[1]) for it in kids):
+                self.scan["text_element"] = True
+        return [("E", name, attrs, kids)]
 
     def _s(self, s, where="text"):
         if not mv.xml_legal(s):
@@ -541,7 +599,7 @@ class Expect:
                 env2 = dict(env)
                 for (sname, klass, val) in node[5]:
                     env2[sname] = val
-            return [("E", node[1], self.attrs(node[3], env2, methods), self.seq(node[4], env2, methods))]
+            return self.elem(node[1], self.attrs(node[3], env2, methods), self.seq(node[4], env2, methods))
         if k == "rtag":
             m = methods[node[5]]
             payload = m["payload"]
@@ -559,7 +617,7 @@ class Expect:
                 return kids
             # attributes of a tag with a renderer are flattened after the renderer ran; slots inside them see the fill too
             env3 = env if m["action"] != "fill" else env2
-            return [("E", node[1], self.attrs(node[3], env3, methods), kids)]
+            return self.elem(node[1], self.attrs(node[3], env3, methods), kids)
         if k == "element":
             return self.seq(node[2], {}, node[3])
         raise AssertionError(k)
@@ -886,6 +944,7 @@ def _run(sim, state):
         "reent_p": sim.draw_choice([0.0, 0.0, 0.15], "reent_p"),
         "buffer": sim.draw_choice([65536, 1, 7, 64], "buffer"),
         "fault": sim.draw_weighted([("none", 6), ("leaf", 3), ("bad", 1)], "fault"),
+        "wide_p": sim.draw_choice([0.15, 0.0, 0.4], "wide_p"),
         "slot_shadow": shadow, "comment_hazard": hazard,
     }
     knobs["bad"] = knobs["fault"] == "bad"
@@ -1036,7 +1095,11 @@ def _run(sim, state):
             structural("xml-structure", r[0], "%s; document %r" % (r[1], S[:300]))
     else:
         sim.probe("xml_view_not_applicable")
-    if not scan["cdata"]:
+    if scan["text_element"]:
+        sim.probe("text_only_element_with_significant_text")
+    if scan["text_element_markup"]:
+        sim.probe("text_only_element_with_markup_children")
+    if not scan["cdata"] and not scan["text_element_markup"]:
         sim.probe("html_view")
         try:
             got = mv.html_view(text)
@@ -1117,6 +1180,13 @@ MUTANTS = [
     "_template_util.py _ToStan.endCDATA: CDATA turned into a Comment: CAUGHT (xml-well-formed / shape)",
     "_template_util.py t:slot default attribute ignored: CAUGHT (reference-flatten-failed: UnfilledSlot)",
     "_stan.py Tag.clone: slotData not copied: CAUGHT (reference-flatten-failed: UnfilledSlot)",
+    # ---- element-name-dependent behaviour (round 5: names from the wider universe, knob wide_p)
+    "_flatten.py Tag branch: children of script/style (any case) written with an escaper that only rewrites `</` (HTML raw-text "
+    "'correctness'): CAUGHT only after element names were drawn from the wider universe (xml-well-formed / xml-structure:attr-markup / "
+    "html-structure:text); survived before (TAGS had ordinary lower-case names only)",
+    "_flatten.py Tag branch: children of title/textarea escaped for `<` only (`&` left alone): CAUGHT (xml-structure:text / html-structure:text)",
+    "_flatten.py Tag branch: values of attributes named on* written without attribute escaping: CAUGHT (xml-well-formed / attr-markup)",
+    "_flatten.py Tag branch: end tag written in lower case: CAUGHT (xml-well-formed, upper/mixed-case names)",
     "_flatten.py _flattenTree: `stack[-1] = await element; continue` instead of pushing the result: SURVIVES - equivalent (the generator of a "
     "Deferred/coroutine node yields exactly once and ends, so replacing it with the result generator changes nothing)",
 ]
